@@ -4469,7 +4469,7 @@ class ParseCtx:
                     result += chr(int(code, base=16))
                     i += 3
                 else:
-                    result += {
+                    escapes = {
                         'n': '\n',
                         'r': '\r',
                         't': '\t',
@@ -4477,7 +4477,10 @@ class ParseCtx:
                         '0': '\x00',
                         '"': '"',
                         '\\': '\\'
-                    }[contents[i]]
+                    }
+                    if contents[i] not in escapes:
+                        raise ValueError("unknown escape sequence \\" + contents[i])
+                    result += escapes[contents[i]]
                     i += 1
         return result
 
